@@ -6,6 +6,7 @@
 //@import trait_block_formatter
 //@import merge_ranges
 //@import merge_overlapped_ranges
+//@include format_exact_vocab.vs
 
 pub proof fn lemma_seam_boundaries(b: Seq<u8>, pos: int, lo: int, hi: int)
     requires valid_utf8(b), 0 <= lo <= pos <= hi <= b.len(), cb(b, pos), all_ws(b, lo, hi),
@@ -13,17 +14,6 @@ pub proof fn lemma_seam_boundaries(b: Seq<u8>, pos: int, lo: int, hi: int)
 {
     if lo < pos { assert(is_ws(b[lo])); lemma_ascii_is_boundary(b, lo); }
     if pos < hi { assert(is_ws(b[hi - 1])); lemma_ascii_is_boundary(b, hi - 1); lemma_ascii_next_boundary(b, hi - 1); }
-}
-
-/// hull of the exact results of the first n formatters (what format_block folds)
-pub open spec fn hull_spec(fs: Seq<Box<dyn Formatter>>, b: Seq<u8>, p: int, n: int) -> (int, int)
-    decreases n,
-{
-    if n <= 0 { (p, p) } else {
-        let h = hull_spec(fs, b, p, n - 1);
-        let r = fs[n - 1].spec_format(b, p);
-        (if r.0 <= h.0 { r.0 } else { h.0 }, if r.1 >= h.1 { r.1 } else { h.1 })
-    }
 }
 
 //@fn id=format_block file=code/formatter.rs name=format_block props=C01,C02,C13,C14
@@ -113,6 +103,9 @@ pub proof fn lemma_rvalid_from_elems(b: Seq<u8>, rp: Seq<RemovedMarker>, m: Seq<
     removed_pos@.len() == 0 ==> out@ == content@,
 //@ensures label=format_deletes_only_whitespace props=C01,C02,C14
     exists|w: Seq<Range<usize>>| format_post(content.spec_bytes(), removed_pos@, w, encode_utf8(out@)),
+//@ensures label=format_deletes_exactly_seams_and_blocks props=C12,C13,C14
+    exists|w: Seq<Range<usize>>| #[trigger] format_post(content.spec_bytes(), removed_pos@, w, encode_utf8(out@))
+        && format_exact(formatters@, structure_formatters@, content.spec_bytes(), removed_pos@, w),
 //@fold 1 type="Vec<Range<usize>>"
 //@fold 2 type="String"
 //@loop 1 iter=it
@@ -123,8 +116,12 @@ pub proof fn lemma_rvalid_from_elems(b: Seq<u8>, rp: Seq<RemovedMarker>, m: Seq<
     ranges@.len() == it.index@,
     all_elem_ok(content.spec_bytes(), removed_pos@, ranges@),
     all_elem_ok(content.spec_bytes(), removed_pos@, open_structure_remove_range@),
-//@loop 2
+    ranges_view(ranges@) == seams(formatters@, content.spec_bytes(), removed_pos@, it.index@),
+    ranges_view(open_structure_remove_range@) == all_blocks(structure_formatters@, content.spec_bytes(), removed_pos@, it.index@),
+//@loop 2 iter=it2
 //@invariant
+    it2.seq() == structure_formatters@.as_ref(),
+    ranges_view(__acc1@) == blocks_of(structure_formatters@, content.spec_bytes(), *pos as int, pair_start_pos as int, it2.index@),
     0 <= __i < removed_pos@.len() && 0 <= *pair_idx < removed_pos@.len(),
     removed_pos@[__i] == (*pos, Some(*pair_idx)),
     removed_pos@[*pair_idx as int].0 == pair_start_pos,
@@ -141,8 +138,27 @@ pub proof fn lemma_rvalid_from_elems(b: Seq<u8>, rp: Seq<RemovedMarker>, m: Seq<
     let ghost __i = it.index@;
     proof { lemma_bytes_valid(content); }
 //@at before "ranges.push(range);"
+    let ghost __r0 = ranges@;
+    let ghost __o0 = open_structure_remove_range@;
     proof {
         assert(seam_ok(content.spec_bytes(), removed_pos@[__i].0 as int, range));
+        assert((range.start as int, range.end as int) == seam_rng(formatters@, content.spec_bytes(), removed_pos@, __i));
+    }
+//@at after "ranges.push(range);"
+    proof {
+        assert(ranges@ =~= __r0.push(range));
+        assert forall|k: int| 0 <= k < __i + 1 implies ranges_view(ranges@)[k] == seams(formatters@, content.spec_bytes(), removed_pos@, __i + 1)[k] by {
+            if k < __i { assert(ranges_view(__r0)[k] == seams(formatters@, content.spec_bytes(), removed_pos@, __i)[k]); }
+        }
+        assert(ranges_view(ranges@) =~= seams(formatters@, content.spec_bytes(), removed_pos@, __i + 1));
+    }
+//@at loop 1 end
+    proof {
+        let b = content.spec_bytes();
+        assert(all_blocks(structure_formatters@, b, removed_pos@, __i + 1)
+            == all_blocks(structure_formatters@, b, removed_pos@, __i) + pair_blocks(structure_formatters@, b, removed_pos@, __i));
+        assert(removed_pos@[__i] == (*pos, *pair_idx));
+        assert(ranges_view(open_structure_remove_range@) =~= all_blocks(structure_formatters@, b, removed_pos@, __i + 1));
     }
 //@at loop 2 start
     broadcast use axiom_into_seq_vec;
@@ -150,6 +166,8 @@ pub proof fn lemma_rvalid_from_elems(b: Seq<u8>, rp: Seq<RemovedMarker>, m: Seq<
 //@at loop 2 end
     proof {
         let b = content.spec_bytes();
+        let k2 = it2.index@;
+        assert(ranges_view(__acc1@) =~= ranges_view(__v0) + structure_formatters@[k2].spec_format(b, *pos as int, pair_start_pos as int));
         assert forall|k: int| 0 <= k < __acc1@.len() implies block_ok(b, *pos as int, pair_start_pos as int, #[trigger] __acc1@[k]) by {
             if k >= __v0.len() {
                 let x = __acc1@[k];
@@ -167,6 +185,11 @@ pub proof fn lemma_rvalid_from_elems(b: Seq<u8>, rp: Seq<RemovedMarker>, m: Seq<
         assert forall|k: int| 0 <= k < ranges@.len() implies elem_ok(content.spec_bytes(), removed_pos@, #[trigger] ranges@[k]) by {
             assert(is_pair(removed_pos@, __i, *pair_idx as int));
         }
+    }
+//@at after "open_structure_remove_range.extend(ranges);"
+    proof {
+        let b = content.spec_bytes();
+        assert(ranges_view(open_structure_remove_range@) =~= ranges_view(__o0) + pair_blocks(structure_formatters@, b, removed_pos@, __i));
     }
 //@at before "merge_ranges(&mut ranges, open_structure_remove_range);"
     let ghost __pre = ranges@;
@@ -197,6 +220,29 @@ pub proof fn lemma_rvalid_from_elems(b: Seq<u8>, rp: Seq<RemovedMarker>, m: Seq<
         lemma_bytes_valid(content);
         lemma_format_post(content.spec_bytes(), removed_pos@, __m, __w);
         lemma_del(content.spec_bytes(), __w, __w.len() as int);
+        // exact deletion set, given sorted seam intervals
+        let b = content.spec_bytes();
+        let n = removed_pos@.len() as int;
+        if seams_sorted(formatters@, b, removed_pos@) {
+            assert(sorted_by_start(__pre)) by {
+                assert forall|i: int, j: int| 0 <= i < j < __pre.len() implies (#[trigger] __pre[i]).start <= (#[trigger] __pre[j]).start by {
+                    assert(ranges_view(__pre)[i] == seam_rng(formatters@, b, removed_pos@, i));
+                    assert(ranges_view(__pre)[j] == seam_rng(formatters@, b, removed_pos@, j));
+                }
+            }
+            assert forall|p: int| #[trigger] covered(__w, p) <==>
+                (cov_pairs(seams(formatters@, b, removed_pos@, n), p) || cov_pairs(all_blocks(structure_formatters@, b, removed_pos@, n), p)) by {
+                lemma_cov_view(__pre, p);
+                lemma_cov_view(__open, p);
+                if __pre.len() > 0 {
+                    lemma_cov_members(__m, __pre, __open, p);
+                } else {
+                    assert(n == 0);
+                    assert(__open.len() == 0);
+                }
+            }
+        }
+        assert(format_exact(formatters@, structure_formatters@, b, removed_pos@, __w));
     }
 //@at loop 3 start
     broadcast use {axiom_rb_range_start, axiom_rb_range_end};
@@ -215,5 +261,6 @@ pub proof fn lemma_rvalid_from_elems(b: Seq<u8>, rp: Seq<RemovedMarker>, m: Seq<
 //@at after-loop 3
     proof {
         assert(format_post(content.spec_bytes(), removed_pos@, __w, encode_utf8(__acc2@)));
+        assert(format_exact(formatters@, structure_formatters@, content.spec_bytes(), removed_pos@, __w));
     }
 //@end
